@@ -138,6 +138,21 @@ def explore(mod, tier, seed, shard, examples_override=None, no_shrink=False):
       raise
     rec.note(plan, out)
 
+  # 0. saved regression inputs (shrunk failures of earlier runs), replayed without Hypothesis
+  if k == 0:
+    import glob
+    from vf.boot import VERIF_DIR
+    kept = sorted(glob.glob(os.path.join(VERIF_DIR, 'replays_kept', '%s-*.json' % mod.ID)))
+    for path in kept:
+      with open(path) as f:
+        plan = json.load(f)['plan']
+      try:
+        evaluate(plan)
+      except Violation as v:
+        return rec, (plan, v)
+    if kept:
+      rec.extra['regression_replays'] = len(kept)
+
   # 1. enumerated sub-spaces (complete, in order; first failure is reported)
   enum = getattr(mod, 'enumerate_plans', None)
   if enum is not None:
